@@ -3,6 +3,7 @@ import json
 import os
 import shutil
 import subprocess
+import time
 
 import lib
 import pygen
@@ -10,6 +11,7 @@ import cfgcommon as cc
 from c06 import CLASS_FILE, run_cli, latest_json
 import c20mcp
 import c20fail
+import c20lists
 
 # set to True once the report is deterministic (C05 repairs): then sections are compared exactly, order included
 STRICT_ORDER = True
@@ -260,6 +262,11 @@ def main(tier):
         # ---------- (c') several analyses FAIL in one run (harness/c20fail.py): race freedom, "together = apart" and a stable failure report ----------
         stats["failing"] = c20fail.run(ck, root, race_bin, canon, first_diff, thorough)
         stats["race_runs"] += stats["failing"]["combined_runs"] + stats["failing"]["apart_runs"]
+        # ---------- (c'') projects whose configuration file sets every list-valued key (harness/c20lists.py): each analysis goroutine loads it ----------
+        t_ = time.time()
+        stats["race_list_keys"] = c20lists.race_stage(ck, root, race_bin, thorough)
+        stats["race_list_keys"]["seconds"] = round(time.time() - t_, 1)
+        stats["race_runs"] += stats["race_list_keys"]["runs"]
     ck.samples = [{"project_files": files, "selects": ["complexity", "deadcode", "clones", "cbo", "lcom", "deps"]},
                   {"mcp_tools": c20mcp.TOOLS, "mcp_scenarios": [x["name"] for x in stats.get("mcp_scenarios", [])],
                    "mcp_example": {"tool": "check_complexity", "arguments": {"path": "<project>", "min_complexity": 2, "output_mode": "full"},
@@ -267,7 +274,8 @@ def main(tier):
     ck.cov.update({
         "evaluations": stats["section_comparisons"] + stats["per_file_comparisons"] + stats["mcp_hook_comparisons"] + stats["race_runs"]
                        + sum(stats.get("mcp_comparisons", {}).values()) + sum(stats.get("mcp_error_cases", {}).values())
-                       + sum(stats.get("mcp_history", {}).get("calls", {}).values()),
+                       + sum(stats.get("mcp_history", {}).get("calls", {}).values())
+                       + stats.get("mcp_list_keys", {}).get("calls", 0) + stats.get("mcp_list_keys", {}).get("inprocess_calls", 0),
         "distinct_nontrivial": stats["subsets"] + stats["section_comparisons"] + sum(stats.get("mcp_nonempty_findings", {}).values())
                                + stats.get("failing", {}).get("multi_failure_scenarios", 0),
         "rule": "generated project (generated control-flow modules, classes, an import cycle, a duplicated class file): combined report vs each "
@@ -292,8 +300,20 @@ def main(tier):
                 "different targets and option/output-mode variants per step, on a server without and on a server with PYSCN_CONFIG (then "
                 "--config on the command line); a failing history is cut at its first wrong answer, shrunk (call alone, one earlier call + the "
                 "call, greedy removal) and replayed through a `{ printf ..; sleep ..; printf ..; } | pyscn-mcp` line; "
+                "LIST-VALUED configuration keys (harness/c20lists.py; enumerated from the TOML structs of internal/config/*.go — input_distribution."
+                "mcp_list_keys.list_keys_of_repo —, a key of the repository without values in the harness is a broken tie): projects L1/L2/L3 (.pyscn.toml) and Lp "
+                "(pyproject.toml [tool.pyscn.*]) set EVERY list-valued key ([analysis] include_patterns / exclude_patterns, [dead_code] ignore_patterns, [clones] "
+                "enabled_clone_types / paths / include_patterns / exclude_patterns, [architecture] custom_patterns / allowed_patterns / forbidden_patterns / layers "
+                "(packages) / rules (allow, deny), [mock_data] keywords / domains / ignore_patterns) to a list of 1 / 2 / 3 entries that differs from the built-in "
+                "default at every position; project B has no configuration file and contains what every list selects (clone pairs of the default-enabled types — "
+                "measured, clone_types_in_B —, files the default exclude patterns drop that have findings for every tool, sub-directory modules, the layers' "
+                "modules); histories on one real server each: every tool on B as the first call of a fresh server; for every tool Ta and every L: Ta(L) then every "
+                "tool on B; every tool on B, Ta(L), every tool on B (quick: L rotates over the tools; thorough: all pairs); the same sequences through repeated "
+                "handler calls inside ONE pyscn-verif process (op mcp); every answer must equal the command line run for that path alone and every answer for B "
+                "must equal the fresh-server answer of the same call; "
                 "MCP analyze_code through the in-process hook; "
-                "-race build of the CLI under several GOMAXPROCS on successful runs; FAILING analyses (harness/c20fail.py): every subset of the failure "
+                "-race build of the CLI under several GOMAXPROCS on successful runs; the -race build on L1/L2/L3/Lp with all analyses selected (each analysis "
+                "goroutine loads the configuration file) under GOMAXPROCS 1/2/4/16 (thorough: three repetitions): no DATA RACE report, exit status not 66; FAILING analyses (harness/c20fail.py): every subset of the failure "
                 "modes the command line offers (--min-complexity < 0, --clone-threshold outside [0,1], --min-cbo < 0, [lcom] thresholds the analysis "
                 "rejects; rejected values at and beyond each boundary and the accepted neighbour) on a normal project, a project with unparsable "
                 "files, only unparsable files (complexity then fails by itself) and files in which the analyses find nothing, with all analyses "
@@ -308,6 +328,8 @@ def main(tier):
                    "failing-analyses stage: the failure modes are those reachable from the `pyscn analyze` command line (dead code and the dependency analysis have none); the MCP "
                    "server is not built with -race; GORACE=atexit_sleep_ms=20 there (the default sleeps 1 s at every successful exit); a race shows only if the detector observes it in one of the repetitions",
                    "MCP side: the real cmd/pyscn-mcp binary driven over stdio JSON-RPC (initialize + tools/call); the in-process hook (op mcp) only for analyze_code",
+                   "list-valued keys: the values are fixed pools per key (first 1/2/3 entries), not all lists; a list shared in place shows only if it changes the findings of "
+                   "project B (measured per tool: input_distribution.mcp_list_keys.configurations_with_other_findings_than_B) or is written by two analysis goroutines under the race detector",
                    "call histories are sampled (all ordered pairs of targets per tool, all ordered pairs of tools), not all sequences; the calls of a history are sequential (concurrent calls on one server are not compared)",
                    "MCP vs CLI equality is decided on projected findings (rows, pairs, scores), not on the presentation (field names, order, wording)",
                    "models Service/Pipeline.v, Service/Isolation.v, Cli/Frontends.v"]
